@@ -7,7 +7,7 @@
    Model/Hierarchy.v is the hand model of the recursion built on top of them;
    it is compared with the real solver's call trace by py/props/c05.py. *)
 From Coq Require Import ZArith List Bool Lia.
-From V Require Import Gen.SolverHelpers Model.Hierarchy Proofs.Hierarchy.
+From V Require Import Gen.SolverHelpers Model.Hierarchy Proofs.Hierarchy Model.MGSem Proofs.MGSem.
 Import ListNotations.
 Local Open Scope Z_scope.
 
@@ -130,6 +130,74 @@ Proof.
   vm_compute. discriminate.
 Qed.
 
+(* 8. What the visited levels DO (Model/MGSem.v: the event list interpreted as a
+   stack machine over (efield, sfield) frames; data flow compared with the real
+   multigrid() by py/props/c05_flow.py).  For every cycle type, shape, pattern
+   and limit: one cycle is a total function of the field (never stuck, stack
+   balanced, source untouched), and -- given the contracts of the four numerical
+   operations, which are the statements proved for the regenerated kernels in
+   C03 (a smoother leaves an exact solution unchanged) and C04/C02 (restriction,
+   prolongation and residual are linear: zero in, zero out) -- it returns an
+   exact solution of the fine-grid system unchanged; so do any number of cycles
+   with directions changing from cycle to cycle. *)
+Section C05sem.
+  Variable fld : Type.
+  Variable feq : fld -> fld -> Prop.
+  Hypothesis feq_refl : forall a, feq a a.
+  Hypothesis feq_sym : forall a b, feq a b -> feq b a.
+  Hypothesis feq_trans : forall a b c, feq a b -> feq b c -> feq a c.
+  Variable zero : fld.
+  Variable smooth : Z -> Z -> Z -> fld -> fld -> fld.
+  Variable resid : Z -> fld -> fld -> fld.
+  Variable restr : Z -> Z -> fld -> fld.
+  Variable prol : Z -> fld -> fld -> fld.
+
+  Theorem multigrid_cycle_is_a_total_function_of_the_field c1 fuel c tr e s :
+    fine_cycle_from c1 fuel c = Some tr ->
+    exists e', run fld zero smooth resid restr prol tr [(e, s)] = Some [(e', s)].
+  Proof. exact (mg_cycle_total fld zero smooth resid restr prol c1 fuel c tr e s). Qed.
+
+  (* e solves the level-l system: residual(model_l, s, e) = 0 *)
+  Let exact_at (l : Z) (e s : fld) : Prop := feq (resid l s e) zero.
+  Hypothesis smooth_fix : forall l clr k e s, exact_at l e s -> feq (smooth l clr k e s) e.
+  Hypothesis exact_proper : forall l e e' s, feq e e' -> exact_at l e s -> exact_at l e' s.
+  Hypothesis restr_zero : forall l csc r, feq r zero -> feq (restr l csc r) zero.
+  Hypothesis coarse_zero_exact : forall l cs, feq cs zero -> exact_at l zero cs.
+  Hypothesis prol_zero : forall l e ce, feq ce zero -> feq (prol l e ce) e.
+
+  Theorem multigrid_cycle_leaves_exact_solution_unchanged c1 fuel c tr e s :
+    fine_cycle_from c1 fuel c = Some tr -> exact_at 0 e s ->
+    exists e', feq e' e /\ run fld zero smooth resid restr prol tr [(e, s)] = Some [(e', s)].
+  Proof.
+    exact (mg_cycle_fixed_point fld feq feq_refl feq_sym feq_trans zero smooth resid restr prol
+             smooth_fix exact_proper restr_zero coarse_zero_exact prol_zero c1 fuel c tr e s).
+  Qed.
+
+  Theorem any_number_of_cycles_leaves_exact_solution_unchanged
+      (cfgs : list (cfg * cfg * nat)) trs e s :
+    map (fun x => fine_cycle_from (fst (fst x)) (snd x) (snd (fst x))) cfgs = map Some trs ->
+    exact_at 0 e s ->
+    exists e', feq e' e /\ run_cycles fld zero smooth resid restr prol trs e s = Some e'.
+  Proof.
+    exact (mg_cycles_fixed_point fld feq feq_refl feq_sym feq_trans zero smooth resid restr prol
+             smooth_fix exact_proper restr_zero coarse_zero_exact prol_zero cfgs trs e s).
+  Qed.
+End C05sem.
+
+(* non-vacuity: an instance meeting all contracts, on which the F-cycle over three
+   levels keeps the exact field and moves an inexact one *)
+Example cycle_contracts_satisfiable :
+  (forall l clr k e s, t_resid l s e = 0 -> t_smooth l clr k e s = e) /\
+  (forall l csc r, r = 0 -> t_restr l csc r = 0) /\
+  (forall l cs, cs = 0 -> t_resid l cs 0 = 0) /\
+  (forall l e ce, ce = 0 -> t_prol l e ce = e) /\
+  cycle_result Z 0 t_smooth t_resid t_restr t_prol t_cfg (fuel_for t_cfg) t_cfg 5 5 = Some [(5, 5)] /\
+  cycle_result Z 0 t_smooth t_resid t_restr t_prol t_cfg (fuel_for t_cfg) t_cfg 3 5 = Some [(5, 5)].
+Proof.
+  destruct toy_contracts as [A [B [C D]]]. destruct toy_cycle_runs as [E [G _]].
+  repeat split; assumption.
+Qed.
+
 Print Assumptions max_level_spec.
 Print Assumptions halvable_means_even_and_gt2.
 Print Assumptions bottom_level_spec.
@@ -148,3 +216,7 @@ Print Assumptions dirs_advance_cyclically.
 Print Assumptions directions_advance_across_preconditioner_calls.
 Print Assumptions stale_handover_at_call_end_refuted.
 Print Assumptions wf_example.
+Print Assumptions multigrid_cycle_is_a_total_function_of_the_field.
+Print Assumptions multigrid_cycle_leaves_exact_solution_unchanged.
+Print Assumptions any_number_of_cycles_leaves_exact_solution_unchanged.
+Print Assumptions cycle_contracts_satisfiable.
